@@ -32,6 +32,7 @@ THEOREMS = [
     "c05_route_chunk_independent",
     "c05_route_real_refines",
     "c05_route_never_raises",
+    "c05_instances_independent",
 ]
 RULE = (
     "streams of 1..6 lines (messages in several serialisations with ASCII / 2- / 3- / 4-byte characters, U+0085, "
@@ -173,6 +174,20 @@ def scenario_cases(rng, budget):
                 "opts": {"scenario": "deep-nesting"}})
     for bad in ("ff0a", "c328", "e282", "f09f98", "80"):
         out.append({"items": base + [notif(9)], "cuts": [n0 // 2], "bad_tail_hex": bad, "opts": {"scenario": "invalid-utf8-tail"}})
+    # every JSON type at every position of a message, with an EMPTY and with a NON-EMPTY table of per-request streams
+    tm = [{"text": t, "term": nl} for t in G.type_matrix_lines()]
+    out.append({"items": tm, "cuts": [], "opts": {"scenario": "type-matrix"}})
+    out.append({"items": tm, "cuts": [len(G.stream_bytes({"items": tm})) // 3], "opts": {"scenario": "type-matrix", "pending": [1, "1", "7", 0, "", "True", "None", "1.5"],
+                                                                                     "pending_closed": ["False", "[]"]}})
+    # the SAME bad line 2, 3, 4 times in a row, then a good one; a bad line after a good one and before one
+    for bad in ("not json", '{"jsonrpc":"2.0","id":1}', "[" * 100_000, "", "\x00"):
+        for k in (2, 3, 4):
+            out.append({"items": [resp(1)] + [{"text": bad, "term": nl}] * k + [resp(2), notif(3)], "cuts": [], "opts": {"scenario": "repeated-failure"}})
+        out.append({"items": [resp(1), {"text": bad, "term": nl}, resp(2), {"text": bad, "term": "\r\n"}, resp(3)], "cuts": [5], "opts": {"scenario": "repeated-failure"}})
+    # non-default connection options crossed with unusual input
+    for server in ({"env": {"LOG_LEVEL": "ERROR"}}, {"env": {"LOGGING_LEVEL": "critical"}}, {"env": {"LOG_LEVEL": "debug", "X": ""}, "args": ["-x", ""]}):
+        out.append({"items": base + [{"text": t, "term": nl} for t in G.JUNK[:12]] + [notif(1)], "cuts": [n0 // 2], "server": server,
+                    "opts": {"scenario": "connection-options"}})
     # nothing but blank / junk lines; the same line many times
     out.append({"items": [{"text": t, "term": rng.choice([nl, "\r\n"])} for t in G.JUNK], "cuts": [], "opts": {"scenario": "junk-only"}})
     out.append({"items": [resp(1, 1)] * 5 + [notif(1)] * 5, "cuts": [10], "opts": {"scenario": "duplicates"}})
@@ -257,13 +272,36 @@ class Chunking(Suite):
                 out.append({"items": items, "cuts": list(range(4096, n, 4096))})
                 for _ in range(6):
                     out.append({"items": items, "cuts": sorted(rng.sample(range(1, n), rng.randrange(1, 40)))})
+        # a host with DEBUG logging configured: a quarter of the cases and every scenario kind at least once
+        seen = set()
+        for i, c in enumerate(out):
+            sc = c.get("opts", {}).get("scenario")
+            if i % 4 == 2 or (sc and sc not in seen):
+                c["debug"] = True
+            if sc:
+                seen.add(sc)
+        # several connections alive at once (groups of three consecutive cases run concurrently, equal ids on each)
+        def plain(c):
+            return c.get("opts", {}).get("api", "client") == "client" and not c.get("opts", {}).get("sessions")
+
+        for g in range(len(out) // 60):
+            grp = [out[g * 60 + 30 + k] for k in range(3) if g * 60 + 30 + k < len(out)]
+            if len(grp) == 3 and all(plain(c) for c in grp):
+                for c in grp:
+                    c["with"] = [{k: v for k, v in o.items() if k != "with"} for o in grp if o is not c]
         return out
 
     # ------------------------------------------------------------------ implementation
     def impl_batch(self, cases):
         from .. import stdio_h
 
-        evs = [{"events": events_for(c), "opts": c.get("opts", {})} for c in cases]
+        def harness_case(c):
+            h = dict({"events": events_for(c), "opts": c.get("opts", {})}, **{k: c[k] for k in ("debug", "server") if k in c})
+            if c.get("with"):
+                h["with"] = [harness_case(w) for w in c["with"]]
+            return h
+
+        evs = [harness_case(c) for c in cases]
         obs = stdio_h.run_reader_cases(evs)
         out = []
         for o in obs:
